@@ -1806,15 +1806,18 @@ class PGPKey(Armorable, ParentRef, PGPObject):
             yield self
             return
 
+        # only components that are themselves passphrase protected are decrypted here and wiped again below;
+        # a component whose secret was never encrypted (e.g. a subkey added a moment ago) is left alone
+        protected = [sk for sk in itertools.chain([self], self.subkeys.values()) if sk._key.protected]
         try:
-            for sk in itertools.chain([self], self.subkeys.values()):
+            for sk in protected:
                 sk._key.unprotect(passphrase)
             del passphrase
             yield self
 
         finally:
             # clean up here by deleting the previously decrypted secret key material
-            for sk in itertools.chain([self], self.subkeys.values()):
+            for sk in protected:
                 sk._key.keymaterial.clear()
 
     def add_uid(self, uid, selfsign=True, **prefs):
